@@ -177,7 +177,7 @@ def write_evidence(prop, tier, seed, outs, wall, meta, level="model_checking"):
             "solver_time_s": round(sum(o.solver_s for o in outs), 2),
             "unwinding_assertions": "on (Kani default; a too-small bound is reported, never truncated)",
             "outside_claim": meta.get("outside_claim", []),
-            "composition": "paper",
+            "composition": "one-step obligations compose by a paper argument; machine-checked only for the short build histories listed in the samples",
             "tree_fingerprint": tree_fingerprint(),
             "engines": sorted(set(o.engine for o in outs)),
         },
